@@ -418,6 +418,14 @@ def run(ctx):
         stream = build_stream(p, e[2], e[3], _random.Random(rng.random()), layout, dbl, text)
         cases.append((kind, p, e[0] == 1, e[1] == 1, stream, layout, dbl, text))
     obs, models, oks = judge_batch([(c[1], c[4]) for c in cases])
+    # the text front end of the model is the Coq tokeniser (request 605); the Python copy of the reader's rules is run
+    # beside it on a sample of the texts
+    sample = [c[4] for c in cases[::7]]
+    dist["tokeniser_cross_checked_texts"] = len(sample)
+    ndiff = sccobs.tokeniser_agrees(sample)
+    if ndiff:
+        res["disagreements"].append({"which": "Coq tokeniser (605) vs the Python copy of the reader's rules (600)",
+                                     "texts_that_differ": ndiff})
     names = {0: "ch", 1: "sp", 2: "ext", 3: "mid", 5: "bs"}
     for (kind, p, dom, wide, stream, layout, dbl, text), o, m, ok in zip(cases, obs, models, oks):
         res["evaluations"] += 1
@@ -511,15 +519,19 @@ def run(ctx):
     res["clauses"] = {
         "theorem": ["generated tables = CEA-608 (all codes, the 15 x 32 preamble grid, tab offsets, control codes, classes)",
                     "popon_refines_608: the decoder MODEL satisfies ok_c05 for whole programs over the full item domain "
-                    "(dom: load_wf per load; layout: one load per line starting ENM RCL, EDM lines anywhere)",
+                    "(dom: load_wf per load; layout: one load per line starting ENM RCL, EDM lines anywhere - and, by "
+                    "read_layout_invariant, every cutting / joining of these lines that keeps the instant of each word and "
+                    "does not separate a mid-row code from a following punctuation word; at the level of the SCC text "
+                    "through the Coq tokeniser: popon_refines_608_text)",
                     "a repeated control code pair counts once (every state, every word); PAC+TO doubled as a unit counts "
                     "once; italics balanced for all instruction lists"],
         "correspondence_only": ["that pycaption behaves like the model: characters / italics / lines / origin of every "
                                 "caption on every generated stream",
                                 "stream layouts outside the theorem (no ENM, EDM on the load's line, several loads per "
                                 "line, split loads), mixed doubling, the wide domain shapes: ok_c05 on the implementation",
-                                "text-level tokenisation (upper case, CRLF, trailing blanks): the harness applies the "
-                                "reader's own tokenisation rules to feed the model"]}
+                                "text-level tokenisation (upper case, CRLF, trailing blanks): the model is fed through "
+                                "the Coq tokeniser (request 605; round trip on rendered text is a theorem); that the "
+                                "real reader tokenises like it is this comparison"]}
     return res
 
 
